@@ -308,8 +308,19 @@ def limits(zw, nest, n):
     return steps, size
 
 
+def apply_caps():
+    """Address-space cap for this process (work units, shrinking and replay all decode hostile inputs)."""
+    try:
+        soft, hard = resource.getrlimit(resource.RLIMIT_AS)
+        if soft == resource.RLIM_INFINITY or soft > AS_CAP:
+            resource.setrlimit(resource.RLIMIT_AS, (AS_CAP, hard))
+    except (ValueError, OSError):
+        pass
+
+
 def probe(ct, data, zw, nest):
     """Decode one input. Returns None when within budget, else (kind, detail)."""
+    apply_caps()
     steps, size = limits(zw, nest, len(data))
     t0 = time.process_time()
     try:
